@@ -67,12 +67,20 @@ def hooks(I):
 
     class ExprV(SymV):
         """An expression object of unknown class (not one with its own operator overrides)."""
+    I.pow_terms = []
     I.RingV, I.ExprV = RingV, ExprV
+    I.ring_rv = lambda v: real_of(ring_term(v))
+    I.ring_D = D
+
+    rv = fn("rv", V, Real)          # real value of a ring element (used by the real-arithmetic mode, C10)
+    real_mode = getattr(I, "real_mode", False)
 
     def numeral(r):
         t = num(r)
         ctx.assume(fn("is_num", V, Bool)(t))
         ctx.assume(fn("num_val", V, Real)(t) == r)
+        if real_mode:
+            ctx.assume(rv(t) == r)
         return t
 
     def ring_term(v):
@@ -85,9 +93,82 @@ def hooks(I):
             return numeral(z3.If(v.t, z3.RealVal(1), z3.RealVal(0)))
         return None
 
+    rwrap = fn("rwrap", Real, V)
+
+    def real_of(t):
+        if z3.is_app(t) and t.decl().name() == "rwrap":
+            return t.arg(0)
+        if z3.is_app(t) and t.decl().name() == "num":
+            return t.arg(0)
+        return rv(t)
+
+    def wrap(r):
+        r = z3.simplify(r)
+        t = rwrap(r)
+        ctx.assume(rv(t) == r)
+        return t
+    I.real_of = real_of
+
+    def rop_real(name, a, b):
+        ra, rb = real_of(a), real_of(b)
+        if name == "add":
+            return RingV(wrap(ra + rb))
+        if name == "mul":
+            return RingV(wrap(ra * rb))
+        if name == "truediv":
+            q = z3.Const(f"quot!{len(I.pow_terms)}!{ctx.fresh_n}", Real)
+            ctx.fresh_n += 1
+            ctx.assume(z3.Implies(rb != 0, q * rb == ra))
+            return RingV(wrap(q))
+        if name == "pow":
+            pw = z3.Const(f"pow!{len(I.pow_terms)}", Real)
+            ctx.assume(z3.Implies(rb == 0, pw == 1))
+            ctx.assume(z3.Implies(rb == 1, pw == ra))
+            ctx.assume(z3.Implies(rb == 2, pw == ra * ra))
+            for (a2, b2, p2) in I.pow_terms:
+                r0, _ = smt.check(ctx, I.pcs + [a2 != ra], rlimit=5_000_000)
+                if r0 != "unsat":
+                    continue
+                for (lo, hi, plo, phi) in ((b2, rb, p2, pw), (rb, b2, pw, p2)):
+                    r_, _ = smt.check(ctx, I.pcs + [hi - lo != 1], rlimit=5_000_000)
+                    if r_ == "unsat":
+                        ctx.assume(z3.Implies(ra != 0, plo * ra == phi))     # x**y * x == x**(y+1)
+                r_, _ = smt.check(ctx, I.pcs + [b2 != rb], rlimit=5_000_000)
+                if r_ == "unsat":
+                    ctx.assume(p2 == pw)
+            I.pow_terms.append((ra, rb, pw))
+            return RingV(wrap(pw))
+        u = fn("rr_" + name, Real, Real, Real)(ra, rb)
+        return RingV(wrap(u))
+
     def rop(name, a, b):
+        if real_mode:
+            return rop_real(name, a, b)
         f = fn("r" + name, V, V, V)
         t = f(a, b)
+        if real_mode:
+            if name == "add":
+                ctx.assume(rv(t) == rv(a) + rv(b))
+            elif name == "mul":
+                ctx.assume(rv(t) == rv(a) * rv(b))
+            elif name == "truediv":
+                ctx.assume(z3.Implies(rv(b) != 0, rv(t) * rv(b) == rv(a)))
+            elif name == "pow":
+                ctx.assume(z3.Implies(rv(b) == 0, rv(t) == 1))
+                ctx.assume(z3.Implies(rv(b) == 1, rv(t) == rv(a)))
+                ctx.assume(z3.Implies(rv(b) == 2, rv(t) == rv(a) * rv(a)))
+                # x**y * x == x**(y+1) for x != 0: related to the other powers of the same base whose exponent
+                # differs by one (decided by a linear query), so that no uninterpreted power function is needed
+                for (a2, b2, t2) in I.pow_terms:
+                    if z3.eq(a2, a):
+                        for (lo, hi, tlo, thi) in ((b2, b, t2, t), (b, b2, t, t2)):
+                            r_, _ = smt.check(ctx, I.pcs + [rv(hi) - rv(lo) != 1], rlimit=5_000_000)
+                            if r_ == "unsat":
+                                ctx.assume(z3.Implies(rv(a) != 0, rv(tlo) * rv(a) == rv(thi)))
+                        r_, _ = smt.check(ctx, I.pcs + [rv(b2) != rv(b)], rlimit=5_000_000)
+                        if r_ == "unsat":
+                            ctx.assume(rv(t2) == rv(t))
+                I.pow_terms.append((a, b, t))
         zero, one = numeral(z3.RealVal(0)), numeral(z3.RealVal(1))
         isn, val = fn("is_num", V, Bool), fn("num_val", V, Real)
         both = z3.And(isn(a), isn(b))
@@ -160,6 +241,8 @@ def hooks(I):
             t = smt.truthy(v.t)
             # helper contract (Sum/Product/QuotientBase.__bool__, default object truth): a falsy expression denotes 0
             ctx.assume(z3.Implies(z3.Not(t), D(v.t) == numeral(z3.RealVal(0))))
+            if real_mode:
+                ctx.assume(z3.Implies(z3.Not(t), rv(D(v.t)) == 0))
             return t
         if isinstance(v, RingV):
             raise Unsupported("truth of a ring value")
@@ -239,6 +322,18 @@ def hooks(I):
                                                        p.BitwiseOr, p.BitwiseXor, p.BitwiseAnd)):
             env = Env({}, None, denR.__globals__)
             return I.run_function(info.node, env, denR.__globals__, [e], {}, None, None, [], {}, name="denR")
+        if isinstance(e, SymNode) and e.cls is p.Variable and isinstance(e.fields.get("name"), Conc):
+            return RingV(z3.Const(f"D:var:{e.fields['name'].obj}", V))      # a named variable: one fixed element
+        if isinstance(e, SymNode) and e.cls is p.Lookup and isinstance(e.fields.get("name"), Conc):
+            at = denR_handler(I, [e.fields["aggregate"]], {}, None, None, node).t
+            return RingV(fn(f"rlookup:{e.fields['name'].obj}", V, V)(at))
+        if isinstance(e, SymNode) and e.cls is p.Call:
+            ft = denR_handler(I, [e.fields["function"]], {}, None, None, node).t
+            ps = e.fields["parameters"]
+            items = I.concrete_iter(ps)
+            if items is not None:
+                ats = [denR_handler(I, [x], {}, None, None, node).t for x in items]
+                return RingV(fn("rcall", V, smt.S, V)(ft, smt.seq_of(ctx, ats)))
         rt = ring_term(e)
         if rt is not None:
             return RingV(rt)
